@@ -156,6 +156,7 @@ type Exec struct {
 	lastSpecKey, lastSpecName string
 	siteVars  map[string]Val
 	forallVars map[string]Val
+	fvDeref   map[*ssa.FreeVar]Val
 	unboundSites map[string]bool
 	opaqueSig map[string]string
 	specCache2 map[string][]specEntry
